@@ -124,3 +124,14 @@ pub fn borrow_raw_nonneg<'a>(fd: i32) -> (r: BorrowedFd<'a>)
     requires fd >= 0                             // [C11+C17.borrow_raw.only_nonnegative]
     ensures raw_of(r.id@) == fd as int, borrowed_from_c(r.id@)
 { unimplemented!() }
+pub trait IntoRawFd: Sized { fn into_raw_fd(self) -> (r: i32); }
+impl IntoRawFd for OwnedFd {
+    /// ownership of the descriptor leaves Rust: only legal for descriptors the library opened itself
+    #[verifier::external_body]
+    fn into_raw_fd(self) -> (r: i32)
+        ensures r as int == raw_of(self.id())
+    { unimplemented!() }
+}
+pub open spec fn creation_flags(bits: i32) -> bool { bits & (libc::O_CREAT | libc::O_EXCL) != 0 || bits & libc::O_TMPFILE == libc::O_TMPFILE }
+/// the link body was read (readlinkat(fd, "")) from a descriptor that passed the procfs checks
+pub open spec fn exists_procfs_link(body: Seq<u8>) -> bool { exists|l: int| (#[trigger] link_body_of(l, body)) && is_procfs(l) }
